@@ -8,6 +8,7 @@ import numpy as np
 
 PROPERTY = "C20"
 LEVEL = "exploration"
+OPTIMIZED_SAMPLE = (8, 120)  # cases repeated under python -O (quick, thorough)
 JOBS = 16
 CASE_TIMEOUT = 300
 RULE = (
